@@ -1,4 +1,5 @@
 import Driver.Util
+import Driver.Loop
 import PMV.Model.Logic3
 /- line-protocol handlers for the C14 view -/
 namespace Drv.C14
@@ -150,3 +151,8 @@ def handle : List Sx → Sx
   | _ => err "c14-op"
 
 end Drv.C14
+
+def main : IO Unit := Drv.runLoop fun x =>
+  match x with
+  | .list (.atom "c14" :: rest) => Drv.C14.handle rest
+  | _ => .atom "bad-op"
